@@ -265,6 +265,52 @@ def apply(text, gen, enabled='', fn_id='?', local=()):
             k = i + 7
         else:
             k = q
+    # R19: RECV.map_or_else(D, |x| BODY) -> match RECV { None => D(), Some(x) => BODY }   (the definition of Option::map_or_else; D is a
+    # function path, BODY has no `return`/`?` whose meaning would change outside a closure -- Verus gives closures no result specification)
+    k = 0
+    while True:
+        i = out.find('.map_or_else(', k)
+        if i < 0:
+            break
+        j = i + len('.map_or_else(')
+        depth, q, comma = 1, j, None
+        while q < len(out) and depth:
+            ch = out[q]
+            if ch in '([{':
+                depth += 1
+            elif ch in ')]}':
+                depth -= 1
+            elif ch == ',' and depth == 1 and comma is None:
+                comma = q
+            q += 1
+        k = q
+        if depth or comma is None:
+            continue
+        a1, a2 = out[j:comma], out[comma + 1:q - 1]
+        m2 = re.match(r'^(\s*)\|\s*(\w+)\s*\|(.*?)(,?\s*)$', a2, re.S)
+        if not re.match(r'^\s*[\w:]+\s*$', a1) or not m2 or re.search(r'\breturn\b|\?', m2.group(3)):
+            continue
+        # receiver: back to the `=` / `;` / `{` / `}` / `,` / unmatched `(` that starts the expression
+        d2, b = 0, i - 1
+        while b >= 0:
+            ch = out[b]
+            if ch in ')]':
+                d2 += 1
+            elif ch in '([':
+                if d2 == 0:
+                    break
+                d2 -= 1
+            elif d2 == 0 and ch in '=;{},':
+                break
+            b -= 1
+        recv = out[b + 1:i]
+        if not recv.strip() or '|' in recv:
+            continue
+        lead = len(recv) - len(recv.lstrip())
+        new_txt = recv[:lead] + 'match ' + recv[lead:] + ' { None =>' + a1.rstrip() + '(),' + a1[len(a1.rstrip()):] + m2.group(1) + 'Some(' + m2.group(2) + ') =>' + m2.group(3) + m2.group(4) + ' }'
+        out = out[:b + 1] + new_txt + out[q:]
+        hits['R19:o.map_or_else(D, |x| B) -> match o { None => D(), Some(x) => B }'] = hits.get('R19:o.map_or_else(D, |x| B) -> match o { None => D(), Some(x) => B }', 0) + 1
+        k = b + 1 + len(new_txt)
     for rid, name, rx, repl in TABLE:
         run(rid, name, rx, repl)
     for opt in [o for o in enabled.split(',') if o]:
